@@ -137,6 +137,9 @@ func execC03Rt(in sx.V) sx.V {
 }
 
 func execC03Dec(in sx.V) sx.V {
+	if in.K == sx.KL && len(in.List) == 2 && in.List[0].IsA("tag") && in.List[1].K == sx.KBytes {
+		return execC03Tag(string(in.List[1].Bytes))
+	}
 	ct, e := c03Lookup(in, 3)
 	if ct == nil {
 		return e
@@ -206,6 +209,82 @@ func execC03Stack(in sx.V) sx.V {
 		out = append(out, ct.d.Render(reflect.ValueOf(back[i])))
 	}
 	return sx.L(cs, sx.L(out...))
+}
+
+// ('tag x<string>): tlb.ParseTag and parseTag (through the hook) on an arbitrary string
+func execC03Tag(s string) sx.V {
+	var a, b sx.V
+	if t, err := tlb.ParseTag(s); err != nil {
+		a = sx.A("err")
+	} else {
+		a = sx.L(sx.Nat(t.Len), sx.N(t.Val))
+	}
+	if r, m, mr, err := tlb.VerifParseFieldTag(s); err != nil {
+		b = sx.A("err")
+	} else {
+		b = sx.L(sx.B(r), sx.B(m), sx.B(mr))
+	}
+	return sx.L(a, b)
+}
+
+func c03Tags(c *Ctx) {
+	var ts []reflect.Type
+	for _, e := range tlbreg.Types {
+		ts = append(ts, e.T)
+	}
+	sum, field := tlbdesc.CollectTags(ts)
+	emit := func(fam, s string) {
+		for _, ch := range []byte(s) {
+			if ch >= 128 {
+				return
+			}
+		}
+		c.Emit("c03.dec", sx.L(sx.A("tag"), sx.Str(s)), "tag|"+fam)
+	}
+	all := append(append([]string{}, sum...), field...)
+	for _, s := range all {
+		emit("shipped", s)
+	}
+	alphabet := "#$_^ 0123456789abcdefABCDEFgxmaybeitsr"
+	for i := 0; i < c.Scale(400, 6000); i++ {
+		s := all[c.R.Intn(len(all))]
+		switch c.R.Intn(9) {
+		case 0: // drop a character
+			if len(s) > 0 {
+				k := c.R.Intn(len(s))
+				s = s[:k] + s[k+1:]
+			}
+			emit("mutated", s)
+		case 1: // swap the separator
+			s = strings.Map(func(r rune) rune {
+				if r == '#' {
+					return '$'
+				}
+				if r == '$' {
+					return '#'
+				}
+				return r
+			}, s)
+			emit("mutated", s)
+		case 2:
+			emit("mutated", s+string(alphabet[c.R.Intn(len(alphabet))]))
+		case 3: // many digits: beyond 32 bits
+			emit("mutated", s+strings.Repeat("f", 1+c.R.Intn(9)))
+		case 4:
+			emit("mutated", strings.ToUpper(s))
+		case 5:
+			emit("mutated", []string{"maybe", "maybe^", "^", "^ ", "maybe^ "}[c.R.Intn(5)]+s)
+		case 6:
+			emit("mutated", s+[]string{" bits", "bytes", " # bits", "$"}[c.R.Intn(4)])
+		default:
+			n := c.R.Intn(12)
+			var sb strings.Builder
+			for j := 0; j < n; j++ {
+				sb.WriteByte(alphabet[c.R.Intn(len(alphabet))])
+			}
+			emit("random", sb.String())
+		}
+	}
 }
 
 // ------------------------------------------------------------ generators
@@ -422,6 +501,9 @@ func genC03(c *Ctx) {
 	//     written before it in the same cell), values with both the top and the lowest bit
 	//     set, boundaries and random ones: the readers' fast paths depend on the offset
 	c03Offsets(c)
+	// 2c. the tag grammars: tlb.ParseTag and parseTag on every shipped struct tag, on
+	//     mutations of them and on random strings
+	c03Tags(c)
 	// 3a. extension layer: snake data and length-prefixed bytes, lengths around the cell
 	//     boundaries (what fits depends on the fields written before)
 	for _, name := range c03Names {
@@ -529,6 +611,43 @@ func c03RealData(c *Ctx) {
 		var block tlb.Block
 		if err := tlb.Unmarshal(cells[0], &block); err != nil {
 			continue
+		}
+		// the same block through a Decoder with its hasher (NewDecoder): identical transaction and
+		// message identity hashes, and Decoder.Hasher() agrees with Cell.Hash on re-encoded cells
+		{
+			cells[0].ResetCounters()
+			dec := tlb.NewDecoder()
+			var block2 tlb.Block
+			in := sx.L(sx.Str("tlb.Block"), sx.Str(filepath.Base(filepath.Dir(f))))
+			if err := dec.Unmarshal(cells[0], &block2); err != nil {
+				c.Fail("c03.rt", in, "decoder-hasher", "a block that tlb.Unmarshal decodes does not decode with NewDecoder(): "+err.Error())
+			} else if dec.Hasher() == nil {
+				c.Fail("c03.rt", in, "decoder-hasher", "NewDecoder().Hasher() is nil")
+			} else {
+				t1, t2 := block.AllTransactions(), block2.AllTransactions()
+				ok := len(t1) == len(t2)
+				for i := 0; ok && i < len(t1); i++ {
+					ok = t1[i].Hash() == t2[i].Hash()
+					if ok && t1[i].Msgs.InMsg.Exists && t2[i].Msgs.InMsg.Exists {
+						m1, m2 := t1[i].Msgs.InMsg.Value.Value, t2[i].Msgs.InMsg.Value.Value
+						ok = m1.Hash(false) == m2.Hash(false)
+						if ok && i < 50 {
+							mc := boc.NewCell()
+							if tlb.Marshal(mc, m2) == nil {
+								h1, e1 := dec.Hasher().Hash(mc)
+								h2, e2 := mc.Hash()
+								ok = e1 == nil && e2 == nil && bytes.Equal(h1, h2)
+							}
+						}
+					}
+				}
+				if !ok {
+					c.Fail("c03.rt", in, "decoder-hasher", "decoding with NewDecoder() (caching hasher) gives other transaction / message hashes than tlb.Unmarshal, or Decoder.Hasher() disagrees with Cell.Hash")
+				} else {
+					c.Note("c03.rt", "real|tlb|block|newdecoder-hasher", in)
+				}
+			}
+			cells[0].ResetCounters()
 		}
 		txT := c03Types["tlb.Transaction"]
 		index := map[string]*boc.Cell{}
@@ -708,12 +827,12 @@ func c03Cursors(c *Ctx) {
 
 // clean-tree behaviour of types outside the model that is not a round trip
 // (reported to the integrator; counted under a "known:" class, not alarmed).
-//   * a non-nil but empty wallet.W5ExtendedActions list writes nothing, while the decoder
-//     needs at least one action ("can not decode sumtype W5ExtendedAction"); the same through
+//   - a non-nil but empty wallet.W5ExtendedActions list writes nothing, while the decoder
+//     needs at least one action ("can not decode sumtype W5ExtendedAction" / "not enough bits"); the same through
 //     wallet.MessageV5 / MessageV5Beta holding a pointer to an empty list
 func c03ExploreKnown(n, canon, what string) (string, bool) {
-	if strings.Contains(what, "can not decode sumtype W5ExtendedAction") &&
-		(canon == "[]" || strings.Contains(canon, "ExtendedActions=[]")) {
+	if (n == "wallet.W5ExtendedActions" && canon == "[]") ||
+		(strings.HasPrefix(n, "wallet.MessageV5") && strings.Contains(canon, "ExtendedActions=[]")) {
 		return "empty-extended-action-list-does-not-decode", true
 	}
 	return "", false
@@ -788,6 +907,12 @@ func c03ExploreOne(c *Ctx, ct *c03Type, pv reflect.Value) {
 	if err != nil {
 		c.Note("c03.explore", c03ExploreClass(ct)+"|encode-err", in)
 		return
+	}
+	if ct.class == tlbdesc.ClassDecodeOnly {
+		if dv := tlbdesc.DescribeEnc(ct.t, ""); dv.K != tlbdesc.KOpaque && dv.NeverEncodes() {
+			c.Fail("c03.explore", in, "never-encodes-"+n, "tlb.Marshal succeeded on a value of "+n+", which is decode-side only by theorem (C03_gen_never_encode_set)")
+			return
+		}
 	}
 	before := tlbdesc.Canon(pv.Elem())
 	pv2 := reflect.New(ct.t)
